@@ -33,6 +33,7 @@ type Frame struct {
 	isDefer  bool    // call started by RunDefers: result discarded, caller ip not advanced
 	visits   []int32 // per-block visit counters (unwinding assertion)
 	deferIdx int
+	isPre    bool // frame of a pre harness of a history item
 }
 
 type b64Pair struct {
